@@ -95,6 +95,7 @@ def worker(case):
                 L.append("P %s 0 %s o" % (ln[1], patch_str(ln[2])))
                 L.append("P %s+adv 0 %s l h" % (ln[1], patch_str(ln[2])))
                 L.append("P %s+pin 0 %s T%d D%s l h" % (ln[1], patch_str(ln[2]), p.hash_type, p.header_digest.hex().encode().hex()))
+                L.append("P %s+latepin 0 %s l T%d D%s c h" % (ln[1], patch_str(ln[2]), p.hash_type, p.header_digest.hex().encode().hex()))
         open(os.path.join(cdir, "cases"), "w").write("\n".join(L) + "\n")
         r = core.run_proc([case["bin"], "cases", "out", "marker", "f0.zck"], cdir, cpu=120, wall=1200)
         if r.timed_out and not r.cpu_exceeded:
@@ -123,7 +124,7 @@ def worker(case):
                 continue
             if t[0] == "S":
                 pos, val = int(t[2]), int(t[3])
-                mode = ["init_read", "lead+header", "pinned"][int(t[4])] if len(t) > 4 else "init_read"
+                mode = ["init_read", "lead+header", "pinned", "pinned-after-lead"][int(t[4])] if len(t) > 4 else "init_read"
                 reg = region_of(p, pos)
                 viols.append(("c06:opened-with-substituted-byte:%s%s" % (reg, "" if mode == "init_read" else ":" + mode), "byte %d (%s) %#x -> %#x still opens (%s)" % (pos, reg, data[pos], val, mode)))
             elif t[0] == "XEND":
@@ -134,10 +135,12 @@ def worker(case):
                 ln = pmap[pid]
                 rcs = [int(x) for x in t[2].split(",")]
                 rc = 1 if all(x == 1 for x in rcs) else 0   # "+pin": the two setters get genuine values and succeed
+                if how == "latepin":
+                    rc = 1 if (rcs[0] == 1 and rcs[-1] == 1) else 0   # lead and header read; what the late setters say is their business
                 stats["evaluations"] += 1
                 stats["opens_" + (how or "init_read")] = stats.get("opens_" + (how or "init_read"), 0) + 1
                 img = apply_patches(data, ln[2])
-                kind = ln[3] + (":" + {"adv": "lead+header", "pin": "pinned"}[how] if how else "")
+                kind = ln[3] + (":" + {"adv": "lead+header", "pin": "pinned", "latepin": "pinned-after-lead"}[how] if how else "")
                 refok = ref_header_ok(img)
                 same_header = img[5:p.header_len] == data[5:p.header_len] and img[:5] in (zckref.MAGIC_FULL, zckref.MAGIC_HDR) and len(img) >= p.header_len
                 if rc == 1 and not refok:
@@ -165,10 +168,11 @@ def worker(case):
 
 class C06(core.Check):
     prop = "C06"
-    flavours = ["asan"]
+    flavours = ["asan", "bundled-asan"]
     rule = ("sample files (library- and reference-written; 4 lead checksum types, flags, dict/no dict, optional elements, detached headers) x EVERY header "
+            "position x all 255 other byte values, on the OpenSSL build and - for headers whose hashed length sweeps the SHA block sizes - on the bundled-SHA build; EVERY header "
             "position x all 255 other byte values through zck_init_read (exhaustive); the same through the two other ways of opening (zck_read_lead + zck_read_header "
-            "step by step; the same with the header pinned to the file's genuine checksum) for every lead byte of every sample and every header byte of the first "
+            "step by step; the same with the header pinned to the file's genuine checksum before, or after, the lead is read) for every lead byte of every sample and every header byte of the first "
             "samples; plus patched images through all three ways: single-byte insertions/deletions with the header-size field adjusted, truncations inside the "
             "header, every integer field re-encoded in a longer form with the same value, stored-checksum transplants, identifier swap and untouched controls. "
             "distinct = (file, position) for substitutions, (file, patch) otherwise")
@@ -176,7 +180,8 @@ class C06(core.Check):
     worker = staticmethod(worker)
 
     def prepare(self, fl):
-        return {"bin": fl["asan"].harness("h_hdrmut", ["h_hdrmut.c"]), "zh": build.zh(fl["asan"])}
+        return {"bin": fl["asan"].harness("h_hdrmut", ["h_hdrmut.c"]), "zh": build.zh(fl["asan"]),
+                "bin_bundled": fl["bundled-asan"].harness("h_hdrmut", ["h_hdrmut.c"]), "zh_bundled": build.zh(fl["bundled-asan"])}
 
     def cases(self, ctx):
         r = core.rng(self.seed, "C06", "gen")
@@ -210,6 +215,50 @@ class C06(core.Check):
                     break
         out = []
         self.exhaustive = True
+        # the other checksum back end (bundled SHA code), where it matters for coverage: the lead prefix and the rest of the header are hashed in
+        # two updates, so header lengths are swept across the SHA-256 / SHA-512 block sizes (every total of 50..72 and 112..138 hashed bytes)
+        import itertools
+        text = (b"the quick brown fox jumps over the lazy dog " * 8)
+        for ht in range(4):
+            lo, hi = ((56, 72) if ht in (0, 1) else (120, 138))
+            seen = set()
+            for cht, nd, dsz, comp, pad, psz in itertools.product((3, 0), (0, 1, 2, 4), (0, 100, 200), (0, 2), (None, 0, 1, 2, 3, 5, 8), (1, 200)):
+                try:
+                    d = zckref.make_file([text[:psz]] * nd, comp_type=comp, hash_type=ht, chunk_hash_type=cht, dict_bytes=text[:dsz],
+                                         opt_elems=None if pad is None else [(1, bytes(pad))])
+                    p = zckref.parse(d)
+                except zckref.Invalid:
+                    continue
+                hashed = p.header_len - zckref.DIGEST_SIZE[ht]     # bytes covered by the checksum (identifier counted, stored digest not)
+                if lo <= hashed <= hi and hashed not in seen:
+                    seen.add(hashed)
+                    out.append({"base": "ref-bundled-h%d-len%d" % (ht, hashed), "data": core.b64(d), "bin": ctx["bin_bundled"],
+                                "lines": [["X", 0, p.header_len], ["P", "p0", [], "control"]], "lines_id": "X0/bundled"})
+                    self.count("bundled_backend_samples", 1)
+            self.extra_cov.setdefault("bundled_backend_hashed_lengths", set()).update("h%d:%d" % (ht, x) for x in seen)
+        # the same sweep with files WRITTEN by the bundled build (writer and reader share the back end: a byte that both leave out of
+        # the checksum shows only as a mutated file that still opens)
+        wi = 0
+        seenw = set()
+        for ht, dsz, csz, comp in itertools.product(range(4), (0, 135, 200), (0, 100), (0, 2)):
+            D = text[:csz]
+            cfg = {"comp": comp, "manual": True, "chunk_hash": 3, "full_hash": ht, "level": 1}
+            data = basefiles.write_with_lib(ctx["zh_bundled"], os.path.join(self.work, "bw%d" % wi), D, cfg, [max(csz, 1), "e"], text[:dsz] if dsz else None)
+            wi += 1
+            if data is None:
+                continue
+            try:
+                p = zckref.parse(data)
+            except zckref.Invalid:
+                continue
+            hashed = p.header_len - zckref.DIGEST_SIZE[ht]
+            bs = 64 if ht in (0, 1) else 128
+            if abs(hashed - bs) <= 3 and (ht, hashed) not in seenw:
+                seenw.add((ht, hashed))
+                out.append({"base": "lib-bundled-h%d-len%d" % (ht, hashed), "data": core.b64(data), "bin": ctx["bin_bundled"],
+                            "lines": [["X", 0, p.header_len], ["P", "p0", [], "control"]], "lines_id": "X0/bundled-lib"})
+                self.count("bundled_backend_library_written_samples", 1)
+        self.extra_cov["bundled_backend_library_written_hashed_lengths"] = set("h%d:%d" % k for k in seenw)
         # one header larger than 1 MiB (piece-wise hashing of large headers): sampled windows only, not part of the exhaustive claim
         nbig = 62000
         big = zckref.make_file([b"%c" % (i & 0xff) for i in range(nbig)], comp_type=0, hash_type=1, chunk_hash_type=3)
@@ -233,7 +282,7 @@ class C06(core.Check):
             # the other two ways of opening (lead + header step by step; header pinned to the genuine checksum): the lead of every sample,
             # the whole header of the first few (quick) / of all (thorough)
             full = (not self.quick) or self.counters.get("sample_files", 0) <= 3
-            for mode in (1, 2):
+            for mode in (1, 2, 3):
                 if full:
                     for lo in range(0, hl, step):
                         out.append({"base": s["name"], "data": core.b64(data), "bin": ctx["bin"], "lines": [["X", lo, min(hl, lo + step), mode]], "lines_id": "X%d/m%d" % (lo, mode)})
